@@ -50,7 +50,7 @@ Definition d_scan (op : string) (v : val) : option val :=
             let p' := N.to_nat p in
             let tbl := score_table sq p' scores in
             Some (ofopt (fun l => VL (map of_interval l))
-                        (scan (fun x => assoc_score tbl (rank x)) sq (N.to_nat k) p'))
+                        (scan_checked (fun x => assoc_score tbl (rank x)) sq (N.to_nat k) p'))
         | _, _ => None
         end
     | _ => None
